@@ -36,13 +36,13 @@ theorem tie_lanelet_add_dynamic (s : St) (l o : Id) (t : T) :
   unfold Gen.Lanelet_add_dynamic_obstacle_to_lanelet
   cases h : s.dreg l t with
   | none =>
-    simp [ddictGet, ddictSet, ddictAddAt, h, bind, Except.bind, pure, Except.pure]
+    simp [ddictGet, ddictHas, ddictSet, ddictAddAt, h, bind, Except.bind, pure, Except.pure]
     funext l' t'
     by_cases hc : l' = l ∧ t' = t
     · obtain ⟨rfl, rfl⟩ := hc; simp [dAdd, h]
     · simp [dAdd, hc]
   | some v =>
-    simp [ddictGet, ddictSet, ddictAddAt, h, bind, Except.bind, pure, Except.pure]
+    simp [ddictGet, ddictHas, ddictSet, ddictAddAt, h, bind, Except.bind, pure, Except.pure]
     funext l' t'
     by_cases hc : l' = l ∧ t' = t
     · obtain ⟨rfl, rfl⟩ := hc; simp [dAdd, h]
@@ -135,13 +135,13 @@ theorem ensure_add_none {s : St} {l : Id} {t : T} (o : Id) (h : s.dreg l t = non
     ddictAddAt (ddictSet s l t []) l t o = .ok { s with dreg := dAdd s.dreg l t o } := by
   have := tie_lanelet_add_dynamic s l o t
   unfold Gen.Lanelet_add_dynamic_obstacle_to_lanelet at this
-  simpa [h, ddictGet, bind, Except.bind, pure, Except.pure] using this
+  simpa [h, ddictGet, ddictHas, bind, Except.bind, pure, Except.pure] using this
 
 theorem ensure_add_some {s : St} {l : Id} {t : T} {v : List Id} (o : Id) (h : s.dreg l t = some v) :
     ddictAddAt s l t o = .ok { s with dreg := dAdd s.dreg l t o } := by
   have := tie_lanelet_add_dynamic s l o t
   unfold Gen.Lanelet_add_dynamic_obstacle_to_lanelet at this
-  simpa [h, ddictGet, bind, Except.bind, pure, Except.pure] using this
+  simpa [h, ddictGet, ddictHas, bind, Except.bind, pure, Except.pure] using this
 
 /-- proves `body s l = if l ∈ E.lanelets then .ok { s with dreg := dAdd s.dreg l t o } else .error .attr` for the registration
     step written out in `_add_dynamic_obstacle_to_lanelets` (`d = find_lanelet_by_id(l).dynamic_obstacles_on_lanelet`,
